@@ -42,6 +42,14 @@ def check_pair(part, Perm, p, t, ref, derived):
     P, T = Perm(p), Perm(t)
     try:
         got = list(P.occurrences_in(T))
+    except RecursionError as exc:
+        # the search recurses once per pattern entry: a pattern about as long as the interpreter's
+        # recursion limit gets no answer at all (resource exhaustion, loud) - not a wrong answer
+        if len(p) + 100 >= sys.getrecursionlimit():
+            part.bump("no_answer_recursion_limit")
+            return
+        part.violation("occ", {"patt": p, "text": t}, {"exception": repr(exc)})
+        return
     except Exception as exc:  # noqa
         part.violation("occ", {"patt": p, "text": t}, {"exception": repr(exc)})
         return
@@ -61,6 +69,12 @@ def check_pair(part, Perm, p, t, ref, derived):
         obs["count_occurrences_in"] = P.count_occurrences_in(T) == len(ref)
         obs["contained_in"] = P.contained_in(T) == bool(ref)
         obs["avoided_by"] = P.avoided_by(T) == (not ref)
+    except RecursionError as exc:
+        if len(p) + 100 >= sys.getrecursionlimit():
+            part.bump("no_answer_recursion_limit")
+            return
+        part.violation("derived", {"patt": p, "text": t}, {"exception": repr(exc), "done": obs})
+        return
     except Exception as exc:  # noqa
         part.violation("derived", {"patt": p, "text": t}, {"exception": repr(exc), "done": obs})
         return
